@@ -12,9 +12,11 @@ import (
 
 type c11Service struct{ types.ServiceKeeper }
 
-func (c11Service) RegisterResponseCallback(string, serviceexported.ResponseCallback) error { return nil }
-func (c11Service) RegisterStateCallback(string, serviceexported.StateCallback) error      { return nil }
-func (c11Service) RegisterModuleService(string, *serviceexported.ModuleService) error      { return nil }
+func (c11Service) RegisterResponseCallback(string, serviceexported.ResponseCallback) error {
+	return nil
+}
+func (c11Service) RegisterStateCallback(string, serviceexported.StateCallback) error  { return nil }
+func (c11Service) RegisterModuleService(string, *serviceexported.ModuleService) error { return nil }
 
 // C11 (self-composition): the oracle's built-in price service answers a request as a function of chain
 // data only: two executions on the same state and block, at two different host-clock readings, agree.
